@@ -266,4 +266,28 @@ def run (env : Env α) (half : α) : Nat → Machine α → Tape α → Machine 
       (mf, r :: rs)
 
 end
+/-! ## GMRF block update: the precision proposal
+
+`GMRFPiecewiseCoalescentBlockUpdatingOperator.propose_precision`:
+
+    length = scaler - 1/scaler
+    if scaler == 1:                                   new = precision            (no draw)
+    elif rand() < length / (length + 2 log scaler):   new = (1/scaler + length*rand()) * precision
+    else:                                             new = pow(scaler, 2*rand() - 1) * precision
+-/
+section
+variable {α : Type} [Add α] [Sub α] [Mul α] [Div α] [One α] [FromNat α] [Trans α] [LT α]
+  [DecidableLT α] [BEq α]
+
+/-- multiplier applied to the precision and the number of uniforms consumed -/
+def precisionMultiplier (s : α) (rands : List α) : α × Nat :=
+  let length := s - 1 / s
+  if s == 1 then (1, 0)
+  else match rands with
+    | u1 :: u2 :: _ =>
+      if u1 < length / (length + FromNat.ofNat 2 * Trans.log s) then (1 / s + length * u2, 2)
+      else (Trans.pow s (FromNat.ofNat 2 * u2 - 1), 2)
+    | _ => (1, 0)
+
+end
 end TT.C15
